@@ -488,6 +488,53 @@ def t_nosalt_run(shard, nshards, seed, ev, known, n=25):
     return core.hyp_drive(strat, check_nosalt_run, n, seed, ev, known, check_name="nosalt_run", shrink=False)
 
 
+def check_corpus(case, ev):
+    """Ordinary configuration lines that hold addresses but no secret, in a run with the password stage
+    on and earlier secret lines: every address gets the image a fresh anonymizer (same salt and options,
+    nothing else seen) gives it.  case: {cfg, prelude: [lines], lines: [corpus lines]}"""
+    from netconan.ip_anonymization import anonymize_ip_addr
+
+    cfg = case["cfg"]
+    fa, exc = guarded(G.file_anonymizer, cfg, False, anon_pwd=True)
+    if exc is not None:
+        return core.exc_finding(exc, case, "ctor/")
+    text = "".join(l + "\n" for l in case["prelude"] + case["lines"])
+    out, exc = guarded(core.run_io, fa, text)
+    if exc is not None:
+        return core.exc_finding(exc, case, "run/")
+    outs = out.split("\n")[len(case["prelude"]) : -1]
+    if len(outs) != len(case["lines"]):
+        return Finding("corpus/line-count-changed", "%d -> %d" % (len(case["lines"]), len(outs)), case)
+    for l, o in zip(case["lines"], outs):
+        f4, f6 = G.mk4(cfg), G.mk6(cfg)
+        want, exc = guarded(lambda: anonymize_ip_addr(f4, anonymize_ip_addr(f6, l + "\n")))
+        if exc is not None:
+            return core.exc_finding(exc, case, "reference/")
+        ev.case({"cfg": cfg, "line": l}, want != l + "\n", ["corpus-line-with-address", "after-%d-secret-lines" % len(case["prelude"])])
+        if o + "\n" != want:
+            return Finding("corpus/address-image-differs-from-fresh-anonymizer", "cfg=%r line %r: in a run with -p and %d earlier secret lines -> %r, fresh address anonymizers alone -> %r" % (cfg, l, len(case["prelude"]), o, want.rstrip("\n")), case)
+    return None
+
+
+REPLAY["corpus"] = check_corpus
+
+
+def t_corpus(shard, nshards, seed, ev, known, n=4):
+    import re
+
+    from ..gen import secrets as S_
+
+    lines = [l for l in S_.CORPUS if re.search(r"\d+\.\d+\.\d+\.\d+|[0-9a-fA-F]*:[0-9a-fA-F:]*:", l)]
+    cfgs = core.collect_cases(G.config(), n * nshards + 3, seed)[3:]
+    cases = []
+    for k, cfg in enumerate(cfgs):
+        if k % nshards != shard:
+            continue
+        prelude = ["username u%d password Secret%dx" % (j, j) for j in range(core.derive("c03c", seed, k) % 4)]
+        cases.append({"cfg": cfg, "prelude": prelude, "lines": lines})
+    return core.enum_drive(cases, check_corpus, ev, known, "corpus")
+
+
 def plan(tier):
     q = tier == "quick"
     return [
@@ -497,4 +544,5 @@ def plan(tier):
         Task("foreign", t_foreign, shards=2 if q else 16, n=400 if q else 10000),
         Task("files", t_files, shards=2 if q else 16, n=60 if q else 1500),
         Task("nosalt_run", t_nosalt_run, shards=1 if q else 4, n=30 if q else 600),
+        Task("corpus", t_corpus, shards=2 if q else 8, n=3 if q else 25),
     ]
